@@ -16,13 +16,13 @@ import (
 
 // Ctx is what a scenario gets.
 type Ctx struct {
-	S    *sim.Sim
-	T    *sim.Tape
-	Tier string
-	Run  uint64 // run index (enumerating scenarios derive their case from it)
-	Plan map[string]interface{} // readable description of what this run does (goes into replay files)
-	mu   sync.Mutex
-	seq  int
+	S     *sim.Sim
+	T     *sim.Tape
+	Tier  string
+	Run   uint64                 // run index (enumerating scenarios derive their case from it)
+	Plan  map[string]interface{} // readable description of what this run does (goes into replay files)
+	mu    sync.Mutex
+	seq   int
 	stamp int64
 	// History is free storage handed to the scenario's Post function (e.g. a porcupine history).
 	History interface{}
